@@ -13,12 +13,13 @@ for f in sorted(glob.glob(os.path.join(HERE, "seeded", "*", "meta.json"))):
     own = m["property"] in det
     others = {k: v for k, v in det.items() if k != m["property"]}
     c = m["confirmed"]
-    rows.append("| %s | %s | %s | %s | %s | %s |" % (
-        m["id"], where.strip(), m.get("summary", "").replace("|", "/"),
+    first = (m.get("checks_at_first_evaluation") or m["checks"]).get("detected_by", {})
+    rows.append("| %s | %s | %s | %s | %s | %s | %s |" % (
+        m["id"], "no" if m.get("missed_at_first_evaluation") else "yes", where.strip(), m.get("summary", "").replace("|", "/"),
         "tests %s, demo %d/%d" % ("pass" if c["tests_pass"] else "FAIL", c["demo_exit_with_change"], c["demo_exit_without_change"]),
         ("**" + ", ".join(det[m["property"]]) + "**") if own else "not detected",
         "; ".join("%s: %s" % (k, ", ".join(v)) for k, v in sorted(others.items())) or "-"))
-table = "| id | where | what was changed | confirmed (tests, demo exit with/without) | own property's check reports | other checks that also report |\n|---|---|---|---|---|---|\n" + "\n".join(rows)
+table = "| id | reported by its own property when first evaluated | where | what was changed | confirmed (tests, demo exit with/without) | own property's check reports (now) | other checks that also report (now) |\n|---|---|---|---|---|---|---|\n" + "\n".join(rows)
 p = os.path.join(HERE, "DESIGN.md")
 s = open(p).read()
 a, b = "<!-- SEEDED-TABLE-BEGIN -->", "<!-- SEEDED-TABLE-END -->"
